@@ -127,7 +127,7 @@ func TestPrivateKey(priv []byte) int {
 // The spec does not tell what to do about empty user ID. So it is accepted as well.
 func ZA(id, pubx, puby []byte) (za []byte, err error) {
 	entl := len(id) << 3
-	if entl > 1<<16 {
+	if entl >= 1<<16 {
 		err = errors.New("entity ID too long")
 		return
 	}
